@@ -109,7 +109,9 @@ pub fn value_len(cls: u8, d: u8, page: usize, maxlen: usize) -> usize {
     (len.max(0) as usize).min(maxlen)
 }
 
-const STR_ATOMS: [&str; 8] = ["", "a", "b", "ab", "\u{e9}", "\u{20ac}", "\u{10348}", "zz"];
+// multi-byte characters come in groups that share their leading bytes and first differ in a
+// middle continuation byte (U+20AC/U+202C: E2 82 AC / E2 80 AC; U+10348/U+10308/U+20348)
+const STR_ATOMS: [&str; 12] = ["", "a", "b", "ab", "\u{e9}", "\u{20ac}", "\u{202c}", "\u{10348}", "\u{10308}", "\u{20348}", "\u{e8}", "zz"];
 const STR_PREFIX: [&str; 6] = ["", "a", "ab", "key/", "key/\u{e9}", "\u{10348}"];
 const BYTE_ATOMS: [u8; 6] = [0x00, 0x01, 0x7f, 0x80, 0xff, b'k'];
 
@@ -124,9 +126,9 @@ fn str_of(idx: usize, pad_to: usize) -> String {
     s.push('|'); // separates prefix from digits, keeps the map injective
     let mut q = i / STR_PREFIX.len();
     loop {
-        s.push_str(STR_ATOMS[1 + q % 7]);
+        s.push_str(STR_ATOMS[1 + q % 11]);
         s.push('.');
-        q /= 7;
+        q /= 11;
         if q == 0 {
             break;
         }
